@@ -319,6 +319,7 @@ func TestC24(t *testing.T) {
 		b.Git(sb.Repo, sb.Home, "init", "-q", "-b", "main")
 		b.Git(sb.Repo, sb.Home, "add", "-A")
 		b.Git(sb.Repo, sb.Home, "commit", "-q", "-m", "A")
+		t0 := time.Now()
 		cleanA := b.CleanBuildInPlace(sb, bin, a, gitEnv, "-n", "4")
 		if _, _, _, err := b.SyncFiles(sb.Repo, filesA, filesB); err != nil {
 			panic(err)
@@ -326,6 +327,8 @@ func TestC24(t *testing.T) {
 		b.Git(sb.Repo, sb.Home, "add", "-A")
 		b.Git(sb.Repo, sb.Home, "commit", "-q", "-m", "B")
 		cleanB := b.CleanBuildInPlace(sb, bin, bb, gitEnv, "-n", "4")
+		r.Obs("info_ms_clean_builds_and_commits", time.Since(t0).Milliseconds())
+		defer func(t1 time.Time) { r.Obs("info_ms_queries", time.Since(t1).Milliseconds()) }(time.Now())
 		if cleanA.Result.TimedOut || cleanB.Result.TimedOut {
 			r.Inconclusive(fmt.Sprintf("%s %d: clean build timed out", stream, i))
 			return
